@@ -177,9 +177,15 @@ BND_RULE_Z = (" Composition boundary set (C10, never sampled): 2-3 overlapping b
               "fungible and non-fungible proofs mixed in the zone (the native code traps), dropped signature proofs; compose n in {<= smaller, "
               "between, = larger, > larger}; then drop the last / the first / all base proofs / everything / also the composed proof; then "
               "withdraw, recall and burn every amount 0 .. balance + 1 granule (every id set).")
+BND_RULE_V = (" V2 assertion boundary set (C09, never sampled; manifests built as TransactionManifestV2): worktop states {empty, only F, only N, "
+              "exactly F and N, F and N plus the unlisted U, F plus the unlisted U, F after a partial take, zero-amount bucket returned, zero withdrawal} x "
+              "{RESOURCES_ONLY, RESOURCES_INCLUDE} x 28 constraint sets (none = IS_EMPTY; per resource non-zero / exact and at-least below, at and above "
+              "the balance / exact ids / at-least ids / a non-fungible constraint on a fungible; pairs); ASSERT_BUCKET_CONTENTS on a full, a "
+              "non-fungible, an empty, a partial and a consumed bucket x 23 constraints; ASSERT_NEXT_CALL_RETURNS_ONLY / _INCLUDE x 9 constraint sets "
+              "followed by every withdraw amount / id set, mint, deposit-batch, take-all (not a call) and burn, also with resources already on the worktop.")
 BND_RULE = " The BOUNDARY set (never sampled, same in quick and thorough) is the full product (limit state reached by a scripted prefix: worktop = balance, part-locked vault, overlapping proofs, locked bucket on the worktop, burnt id, failed mint, lost signatures ...) x (every instruction kind that can consume it) x (every argument: amounts 0 .. balance + 1 granule in half-granule steps, all id sets), each followed by a closing sequence."
 
-ALL_OPS_CORE = ["IWithdraw", "ITakeFromWorktop", "ITakeAll", "IReturnToWorktop", "IDeposit", "IDepositBatch", "IMint", "IBurn",
+ALL_OPS_CORE = ["IAssertResOnly", "IAssertResInclude", "IAssertNextCallOnly", "IAssertNextCallInclude", "IAssertBucket", "IWithdraw", "ITakeFromWorktop", "ITakeAll", "IReturnToWorktop", "IDeposit", "IDepositBatch", "IMint", "IBurn",
                 "IAssertContains", "IAssertAny", "EndTx"]
 NF_OPS_CORE = ["IWithdrawNF", "ITakeNF", "IMintNF", "IAssertNF"]
 PROOF_OPS = ["IAzProofOfAmount", "IAzProofOfAll", "IProofOfAmount", "IBucketProofOfAmount", "IBucketProofOfAll", "IPopFromAuthZone", "IPushToAuthZone", "ICloneProof",
@@ -259,16 +265,20 @@ def C09(ctx):
                    "S: TLC checks on every reachable state/transition of Ledger.tla (fungible core, <= 5/8 instructions, and fungible + "
                    "non-fungible core, <= 4/6 instructions; 2 accounts, 2 bucket names) InTxConservation (vaults + worktop + buckets = "
                    "before + minted - burned; every id in exactly one container), NoEmptyWorktopBucket, SuccessClean, TakeExact, "
-                   "TakeShortFails, TakeEnoughSucceeds, AssertExact, UseAfterConsume. G: %(n)d model manifests (all manifests of <= 2 "
+                   "TakeShortFails, TakeEnoughSucceeds, AssertExact, ResAssertExact (ASSERT_WORKTOP_RESOURCES_ONLY / _INCLUDE / IS_EMPTY, "
+                   "ASSERT_NEXT_CALL_RETURNS_ONLY / _INCLUDE, ASSERT_BUCKET_CONTENTS pass exactly when the worktop / the returned buckets / the bucket "
+                   "satisfy the constraints), UseAfterConsume. G: %(n)d model manifests (all manifests of <= 2 "
                    "instructions of two tiny instances + seeded simulated manifests of up to 8 instructions over %(kinds)d instruction "
                    "kinds) built with ManifestBuilder and executed by LedgerSimulator; compared: commit success/failure, error class "
                    "(%(classes)d classes predicted), index of the failing instruction (prefix probing), every account vault balance / id "
                    "set, total supplies and non-fungible data read from the database. %(ok)d of %(txs)d transactions commit successfully. "
-                   "distinct = distinct manifests with >= 2 instructions." + BND_RULE,
+                   "distinct = distinct manifests with >= 2 instructions." + BND_RULE + BND_RULE_V,
                    ops_ok=["Withdraw", "WithdrawNF", "TakeFromWorktop", "TakeNF", "TakeAll", "ReturnToWorktop", "Deposit", "DepositBatch",
-                           "Mint", "MintNF", "Burn", "AssertContains", "AssertAny", "AssertNF"],
+                           "Mint", "MintNF", "Burn", "AssertContains", "AssertAny", "AssertNF",
+                           "AssertResOnly", "AssertResInclude", "AssertNextCallOnly", "AssertNextCallInclude", "AssertBucket"],
                    errs=["WorktopInsufficient", "AssertionFailed", "BucketNotFound", "DropNonEmptyBucket", "OrphanedNodes",
-                         "InsufficientBalance", "InvalidAmount", "MissingId", "Unauthorized", "*", "NonFungibleAlreadyExists"])
+                         "InsufficientBalance", "InvalidAmount", "MissingId", "Unauthorized", "*", "NonFungibleAlreadyExists",
+                         "AssertNextCallReturnsFailed", "AssertBucketContentsFailed"])
 
 
 def C03(ctx):
@@ -484,7 +494,8 @@ PROPS = {
                      "intent processor; a failing instruction reverts the transaction. TLC checks that inside a transaction nothing vanishes "
                      "or is duplicated (vaults + worktop + buckets = before + minted - burned, ids in exactly one container), that a "
                      "transaction only succeeds with an empty worktop and no bucket left, that takes yield exactly the requested amount and "
-                     "fail beyond the worktop content, that assertions pass exactly when they hold, that consumed buckets/proofs cannot be "
+                     "fail beyond the worktop content, that assertions (V1 worktop assertions and the V2 resource-constraint assertions on the worktop, on "
+                     "a bucket and on the buckets returned by the next call) pass exactly when they hold, that consumed buckets/proofs cannot be "
                      "used. Every manifest the model generates is built with ManifestBuilder and executed on a real ledger; the model's "
                      "prediction (success / failing instruction / error class / every balance, id set and supply) is compared with the "
                      "receipt and the database.",
